@@ -147,6 +147,20 @@ func c11Spaces(tier string) []*explore.Space {
 			}
 		}
 	}
+	// U5: a union re-evaluated per candidate: host[A | B], host[(A | B) = 'v'],
+	// host[count(A | B) > n], host/(A | B) after a multi-node step
+	var u5 []gen.Expr
+	inner := []*gen.Path{relPath(gen.Ch("a")), relPath(gen.Ch("*")), relPath(gen.At("*")), relPath(gen.DotDot()), relPath(gen.DotDot(), gen.Ch("*")), relPath(gen.DotDot(), gen.At("*")),
+		relPath(gen.St("following-sibling", "*")), relPath(gen.St("preceding-sibling", "node()")), relPath(gen.St("ancestor", "*")), relPath(gen.Ch("text()")), gen.AbsP(gen.Ch("*"))}
+	for _, h := range []gen.Step{gen.Ch("*"), gen.St("descendant-or-self", "node()"), gen.St("descendant", "*")} {
+		for _, a := range inner {
+			for _, b := range inner {
+				u := gen.B("|", a, b)
+				u5 = append(u5, relPath(withPred(h, u)), relPath(withPred(h, gen.B("=", &gen.Group{E: u}, gen.S("1")))), relPath(withPred(h, gen.B(">", gen.F("count", u), gen.N(1)))),
+					&gen.Path{Steps: []gen.Step{h, {Seq: []gen.Step{a.Steps[len(a.Steps)-1], b.Steps[len(b.Steps)-1]}}}})
+			}
+		}
+	}
 	bag := &evalCfg{Prop: "C11", Ops: []string{"select"}, Mode: "bag"}
 	n := 3
 	if tier == "thorough" {
@@ -159,6 +173,7 @@ func c11Spaces(tier string) []*explore.Space {
 		exprSpace("U2xT3", "A | B for all pairs of 1-step paths (+ two-step operands) x T(<=3)", u2, t3, bag),
 		exprSpace("U3xT3", "sequence form p/(s1, s2[, s3]) x T(<=3)", u3, t3, bag),
 		exprSpace("U4xT3", "A | B | C and (A | B)[P] x T(<=3)", u4, t3, bag),
+		exprSpace("U5xT3", "a union re-evaluated per candidate: host[A | B], host[(A | B) = 'v'], host[count(A | B) > 1], host/(s1, s2) x T(<=3)", u5, t3, bag),
 	}
 	if tier == "thorough" {
 		sp = append(sp, exprSpace("U2x11", "A | B pairs x the '-'/digit name universe (<=3)", u2, func() []*doc.Tree { return uni11(3, []string{"v-1", "v", "1", ""}, "mix4") }, bag))
